@@ -261,11 +261,8 @@ Proof. exact v1_tcp6_v4mapped_refuted. Qed.
 Print Assumptions C38_v1_tcp6_v4mapped_refuted.
 
 (* ================================================================== *)
-(* the hypotheses above are satisfiable by concrete, non-trivial values *)
-Definition ex_ipf (t : bytes) : option ipaddr :=
-  if list_eqb t b_1111 then Some a_1111 else if list_eqb t b_v6 then Some a_v6
-  else if list_eqb t b_mapped then Some a_1111 else None.
-
+(* the hypotheses above are satisfiable by concrete, non-trivial values
+   ([ex_ipf] converts the three texts 1.1.1.1, ::1 and ::ffff:1.1.1.1 and nothing else) *)
 (* "PROXY TCP4 1.1.1.1 1.1.1.1 80 443\r\n" followed by "GET" *)
 Example ex_v1_tcp4 :
   pp_parse ex_ipf (enc_v1_tcp 52 b_1111 b_1111 [56;48] [52;52;51] ++ [71;69;84]) =
